@@ -12,6 +12,7 @@ working tree (sources, headers, CMake files, *.in templates) gives a fresh build
 """
 import fcntl
 import hashlib
+import re
 import os
 import shutil
 import subprocess
@@ -37,6 +38,13 @@ FLAVOURS = {
         cflags="-O1 -g -fsanitize=thread -fno-omit-frame-pointer -D%s" % GUARD,
         extra=["-DENABLE_TESTS=OFF"],
     ),
+    # the repository's other build system (autotools, its own defaults: thread safe + recursive lock check): C13 "both build systems"
+    "tsan-at": dict(
+        autotools=True,
+        cc="clang",
+        cflags="-O1 -g -fsanitize=thread -fno-omit-frame-pointer -D%s" % GUARD,
+        extra=["--disable-doxygen", "--disable-manpages", "--disable-examples", "--disable-tests", "--disable-shared", "--with-gnutls"],
+    ),
     "stock": dict(
         cc="cc",
         cflags="-Wno-error",
@@ -49,7 +57,7 @@ def tree_hash(flavour):
     h = hashlib.sha256()
     h.update(flavour.encode())
     h.update(repr(FLAVOURS[flavour]).encode())
-    roots = ["src", "include", "cmake", "tests", "ext/tinydtls/CMakeLists.txt"]
+    roots = ["src", "include", "cmake", "tests", "ext/tinydtls/CMakeLists.txt", "m4", "autogen.sh", "Makefile.am"]
     files = []
     for r in roots:
         p = os.path.join(REPO, r)
@@ -76,6 +84,27 @@ def tree_hash(flavour):
     return h.hexdigest()[:16]
 
 
+def build_autotools(bdir, fl):
+    """autogen.sh writes into the source tree: work on a copy of /repo's working tree inside the build directory."""
+    src = os.path.join(bdir, "tree")
+    os.makedirs(src)
+
+    def run(cmd, cwd, what):
+        out = subprocess.run(cmd, cwd=cwd, stdout=subprocess.PIPE, stderr=subprocess.STDOUT, text=True)
+        if out.returncode != 0:
+            sys.stderr.write(out.stdout[-6000:])
+            raise SystemExit("buildlib: autotools %s failed" % what)
+    run(["rsync", "-a", "--exclude", ".git", "--exclude", "_build", "--exclude", "build", REPO + "/", src + "/"], bdir, "copy")
+    run(["./autogen.sh"], src, "autogen")
+    run([os.path.join(src, "configure"), "CC=" + fl["cc"], "CFLAGS=" + fl["cflags"]] + fl["extra"], bdir, "configure")
+    run(["make", "-j", "16"], bdir, "make")
+    libs = [f for f in os.listdir(os.path.join(bdir, ".libs")) if f.startswith("libcoap-3") and f.endswith(".a")]
+    if not libs:
+        raise SystemExit("buildlib: autotools build produced no static library")
+    # same layout as the CMake build directory: libcoap-3.a, coap_config.h and include/coap3/coap_defines.h at the top
+    shutil.copy(os.path.join(bdir, ".libs", libs[0]), os.path.join(bdir, "libcoap-3.a"))
+
+
 def build(flavour, quiet=True):
     os.makedirs(BUILD_ROOT, exist_ok=True)
     lock = open(os.path.join(BUILD_ROOT, ".lock-" + flavour), "w")
@@ -88,10 +117,14 @@ def build(flavour, quiet=True):
             return bdir
         # remove stale builds of this flavour (disk)
         for d in os.listdir(BUILD_ROOT):
-            if d.startswith(flavour + "-") and d != os.path.basename(bdir):
+            if re.fullmatch(re.escape(flavour) + "-[0-9a-f]{16}", d) and d != os.path.basename(bdir):
                 shutil.rmtree(os.path.join(BUILD_ROOT, d), ignore_errors=True)
         shutil.rmtree(bdir, ignore_errors=True)
         fl = FLAVOURS[flavour]
+        if fl.get("autotools"):
+            build_autotools(bdir, fl)
+            open(stamp, "w").write(hsh)
+            return bdir
         cmd = ["cmake", "-G", "Ninja", "-S", REPO, "-B", bdir,
                "-DCMAKE_C_COMPILER=" + fl["cc"], "-DCMAKE_BUILD_TYPE=",
                "-DENABLE_DOCS=OFF", "-DENABLE_EXAMPLES=OFF",
